@@ -84,57 +84,3 @@ Fixpoint val_eqb (a b : val) {struct a} : bool :=
   | _, _ => false
   end.
 
-Definition seq_len_ok (c : seqc) (n : N) : bool :=
-  match c with
-  | CVec => true
-  | CArr _ m => n =? m
-  | CLBuf _ cap _ unb => unb || (n <=? cap)
-  end.
-
-(* has_type: the values a C++ object of the described type can hold *)
-Fixpoint has_type (t : ty) (v : val) {struct t} : bool :=
-  match t, v with
-  | TScalar _ s, VInt z => scalar_ok s z
-  | TStr cw, VSeq vs =>
-      forallb (fun x => match x with
-                        | VInt z => (0 <=? z)%Z && (z <? 2 ^ (8 * Z.of_N cw))%Z
-                        | _ => false end) vs
-  | TSeq c t', VSeq vs =>
-      seq_len_ok c (N.of_nat (length vs)) && forallb (has_type t') vs
-  | TTuple _ ts, VSeq vs =>
-      (fix go (ts : list ty) (vs : list val) : bool :=
-         match ts, vs with
-         | [], [] => true
-         | t' :: ts', v' :: vs' => has_type t' v' && go ts' vs'
-         | _, _ => false
-         end) ts vs
-  | TWrap _ t', _ => has_type t' v
-  | TMap _ kt vt, VMap kvs =>
-      forallb (fun kv => has_type kt (fst kv) && has_type vt (snd kv)) kvs
-  | TOpt _, VNone => true
-  | TOpt t', VSome x => has_type t' x
-  | TRes _ ek _, VErr e => in_range ek e
-  | TRes _ _ t', VOk x => has_type t' x
-  | TVar ts, VEmpty => true
-  | TVar ts, VAlt i x =>
-      (0 <=? i)%Z &&
-      (fix pick (ts : list ty) (n : nat) : bool :=
-         match ts with
-         | [] => false
-         | t' :: ts' => match n with O => has_type t' x | S n' => pick ts' n' end
-         end) ts (Z.to_nat i)
-  | THnd _ _ _, VHnd h => in_range I64 h
-  | TTab _ es, VTab xs =>
-      (fix go (es : list (N * bool * ty)) (xs : list val) : bool :=
-         match es, xs with
-         | [], [] => true
-         | (_, act, t') :: es', x :: xs' =>
-             (match x with
-              | VNone => true
-              | VSome y => act && has_type t' y
-              | _ => false
-              end) && go es' xs'
-         | _, _ => false
-         end) es xs
-  | _, _ => false
-  end.
